@@ -103,10 +103,22 @@ def _find_update(ctx, A, r, lib):
             cands.append(e)
         elif e.data["tkind"] == "sub":
             cands.append(e)
-    if len(cands) != 1:
-        ctx.ob("R16.3", fq, None, None, f"expected one per-parameter gradient store in the loop (found {len(cands)})",
-               construct="update store")
+    if not cands:
+        ctx.ob("R16.3", fq, None, None, "no per-parameter gradient store found in the loop", construct="update store")
         return None
+    if len(cands) > 1:
+        # several stores (e.g. a fast path under a condition): each must be the documented update; the ones that are not
+        # are reported, and the analysis continues with the last (general) store
+        full = [c for c in cands if len([a for a in subterms(c.data["value"]) if a.op == "sub" and _grad_kind(a, lib)]) >= 2]
+        for c in cands:
+            if c not in full:
+                conds = [show(x, maxdepth=3)[:60] for x in c.pc if x.op != "inloop"]
+                ctx.ob("R16.3", fq, c.node, False, f"under {conds} the predictor gradient is set to {show(c.data['value'], maxdepth=3)[:80]}"
+                       ", which is not dW_LP - proj*unit - alpha*dW_LA (the projection term is skipped)", construct="conditional update store")
+        if len(full) != 1:
+            ctx.ob("R16.3", fq, None, None, f"expected one general gradient store (found {len(full)})", construct="update store")
+            return None
+        cands = full
     e = cands[0]
     update = e.data["value"]
     # gradient lists: indexed operands of the update, classified by their defining expression
